@@ -7,7 +7,7 @@ of the job (plan), and what the remote makes of these operations (apply).
 Mirrors: `_handle_pull_request`, `handle_declined_pull_request`, `handle_merge_queues`
 (bert_e/workflow/gitwaterflow/__init__.py, queueing.py), `create_integration_branches`,
 `update_integration_branches`, `merge_integration_branches` (integration.py), `robust_merge`,
-`push` (git_utils.py), `Repository.push/push_all`, `Branch.remove` (lib/git.py),
+`consecutive_merge`, `push` (git_utils.py), `Repository.push/push_all`, `Branch.remove` (lib/git.py),
 `_reset` (commands.py) and the admin jobs (bert_e/jobs/*.py).
 
 What is an *input* of a step and not computed here: how far the gates (options, approvals, Jira,
@@ -135,6 +135,9 @@ structure PrInfo where
   id : Nat
   src : String
   dst : Dest
+  /-- `job.settings.no_octopus` of THIS evaluation: the option comes from the command line or from a comment of a
+      privileged user on the pull request, so it belongs to the evaluation and not to the system state -/
+  noOct : Bool
   deriving Repr
 
 /-- how far the gates let an evaluation go -/
@@ -177,6 +180,45 @@ def Loc.merge (l : Loc) (r : Ref) (srcs : List Commit) : Option Loc :=
       | (g', some c) => some { l' with g := g', refs := l'.refs.set r c }
       | (_, none) => none
 
+/-- one `dst.merge(src)` of `consecutive_merge` in the clone (a 2-way `git merge`; the ref exists - `merge2` checks).
+    On a conflict the answer is consumed and NOTHING else changes: the `dst.reset(False, False)` that follows in
+    `consecutive_merge` is `git reset --hard <dst itself>`, it cleans the work tree and leaves the branch where the
+    merges made so far have put it. -/
+def Loc.merge1 (l : Loc) (r : Ref) (c : Commit) : Loc × Bool :=
+  match l.merge r [c] with
+  | some l' => (l', true)
+  | none => (l.ask.2, false)
+
+/-- `dst.merge(x); dst.merge(y)` up to the first MergeFailedException (`false` = it was raised) -/
+def Loc.seq2 (l : Loc) (r : Ref) (x y : Commit) : Loc × Bool :=
+  let s1 := l.merge1 r x
+  if s1.2 then s1.1.merge1 r y else s1
+
+/-- `consecutive_merge(dst, src1, src2)` (option `no_octopus`): `dst.merge(src1); dst.merge(src2)`; when one of the
+    two raises MergeFailedException: `dst.reset(False, False); dst.merge(src2); dst.merge(src1)` - from wherever the
+    branch is by then (a successful first merge of the first attempt stays), and a failure there is the conflict.
+    Content-merge answers are consumed in the order git is asked (at most four). `none` = conflict: the callers
+    (`update_integration_branches` -> Conflict, `add_to_queue` -> QueueConflict, `merge_integration_branches` ->
+    the job dies) never publish the branch after a conflict, so the state left behind (it may hold the first merge
+    of the retry) is dropped. -/
+def Loc.merge2 (l : Loc) (r : Ref) (a b : Commit) : Option Loc :=
+  if !l.refs.has r then none else
+  let t := l.seq2 r a b
+  if t.2 then some t.1 else
+  let u := t.1.seq2 r b a
+  if u.2 then some u.1 else none
+
+/-- the 3-way merge of the cascade, as selected by `job.settings.no_octopus`:
+    `consecutive_merge(dst, a, b)` or `robust_merge(dst, a, b)` -/
+def Loc.mergeN (l : Loc) (noOct : Bool) (r : Ref) (a b : Commit) : Option Loc :=
+  if noOct then l.merge2 r a b else l.merge r [a, b]
+
+/-- the merge of `merge_integration_branches` into a later target: `robust_merge(dst, prev.dst, w)`, or under
+    `no_octopus` `consecutive_merge(dst, w, prev.dst)` - the integration branch FIRST (it contains the previous
+    target, so the merge stays the fast-forward to the built commit that the octopus is) -/
+def Loc.mergeD (l : Loc) (noOct : Bool) (r : Ref) (prevD wc : Commit) : Option Loc :=
+  if noOct then l.merge2 r wc prevD else l.merge r [prevD, wc]
+
 def tipsOf (refs : RefMap) (rs : List Ref) : List (Ref × Commit) :=
   rs.filterMap (fun r => (refs.get r).map (fun c => (r, c)))
 
@@ -202,7 +244,8 @@ def inSync (g : Graph) (refs : RefMap) (prev : Commit) : List Ref → Bool
     | none => false
     | some c => g.le prev c && inSync g refs c rs
 
-/-- `update_integration_branches` after the first: w_k := merge(w_k, dst_k, previous).
+/-- `update_integration_branches` after the first: w_k := merge(w_k, dst_k, previous)
+    (`consecutive_merge(wbranch, wbranch.dst_branch, source)` under `no_octopus`, else `robust_merge`).
     Returns the updated clone and the list of branches updated before a conflict (`none` = no conflict). -/
 def updateW (l : Loc) (pr : PrInfo) (prev : Commit) : List Dest → List Ref → Loc × List Ref × Bool
   | [], done => (l, done, true)
@@ -210,35 +253,37 @@ def updateW (l : Loc) (pr : PrInfo) (prev : Commit) : List Dest → List Ref →
     match l.refs.get (.dest d) with
     | none => (l, done, false)
     | some t =>
-      match l.merge (.w d pr.src) [t, prev] with
+      match l.mergeN pr.noOct (.w d pr.src) t prev with
       | none => (l, done, false)
       | some l' =>
         match l'.refs.get (.w d pr.src) with
         | none => (l', done, false)
         | some c => updateW l' pr c ds (done ++ [.w d pr.src])
 
-/-- `add_to_queue` after the first target: q_k := merge(q_k, w_k, previous queue-integration branch) -/
+/-- `add_to_queue` after the first target: q_k := merge(q_k, w_k, previous queue-integration branch)
+    (`consecutive_merge(qbranch, wbranch, qint)` under `no_octopus`) -/
 def queueRest (l : Loc) (pr : PrInfo) (prevQ : Commit) : List Dest → Option Loc
   | [] => some l
   | d :: ds =>
     match l.refs.get (.w d pr.src) with
     | none => none
     | some wc =>
-      match l.merge (.q d) [wc, prevQ] with
+      match l.mergeN pr.noOct (.q d) wc prevQ with
       | none => none
       | some l' =>
         match l'.refs.get (.q d) with
         | none => none
         | some qc => queueRest { l' with refs := l'.refs.set (.qw pr.id d pr.src) qc } pr qc ds
 
-/-- `merge_integration_branches` after the first target: dst_k := merge(dst_k, dst_{k-1}, w_k) -/
+/-- `merge_integration_branches` after the first target: dst_k := merge(dst_k, dst_{k-1}, w_k)
+    (`consecutive_merge(wbranch.dst_branch, wbranch, prev.dst_branch)` under `no_octopus`: `Loc.mergeD`) -/
 def mergeRest (l : Loc) (pr : PrInfo) (prevD : Commit) : List Dest → Option Loc
   | [] => some l
   | d :: ds =>
     match l.refs.get (.w d pr.src) with
     | none => none
     | some wc =>
-      match l.merge (.dest d) [prevD, wc] with
+      match l.mergeD pr.noOct (.dest d) prevD wc with
       | none => none
       | some l' =>
         match l'.refs.get (.dest d) with
@@ -273,8 +318,55 @@ def isNeeded (s : Sys) (l : Loc) (pr : PrInfo) (ts : List Dest) : Bool :=
 def allQRefs (m : RefMap) : List Ref :=
   (m.filter (fun rc => match rc.1 with | .q _ => true | .qw _ _ _ => true | _ => false)).map (·.1)
 
-def qOnly (m : RefMap) : List Ref :=
+/-! #### the order in which `QueueCollection.delete()` removes the queue branches -/
+
+/-- `insert x` before the first element that is greater: one step of a stable insertion sort -/
+def insBefore {α : Type} (lt : α → α → Bool) (x : α) : List α → List α
+  | [] => [x]
+  | y :: ys => if lt x y then x :: y :: ys else y :: insBefore lt x ys
+
+/-- a stable sort (elements inserted in list order, an element equal to earlier ones goes after them) -/
+def stableSort {α : Type} (lt : α → α → Bool) (l : List α) : List α :=
+  l.foldl (fun acc x => insBefore lt x acc) []
+
+/-- the version as it is written in a branch name -/
+def Dest.verStr : Dest → String
+  | .dev M none => toString M
+  | .dev M (some m) => toString M ++ "." ++ toString m
+  | .stab M m u => toString M ++ "." ++ toString m ++ "." ++ toString u
+  | .hotfix M m u => toString M ++ "." ++ toString m ++ "." ++ toString u ++ ".1"   -- (hfrev; immaterial for the order)
+
+/-- (major, minor) of a queue's version tuple -/
+def Dest.mm : Dest → Key
+  | .dev M m => (M, m)
+  | .stab M m _ => (M, some m)
+  | .hotfix M m _ => (M, some m)
+
+/-- `compare_queues(a, b) < 0`: by (major, minor) as `compare_branches` (no minor = the latest); with the same
+    (major, minor) a stabilization queue comes before the development queue, everything else compares equal -/
+def Dest.queueLt (a b : Dest) : Bool :=
+  if a.mm == b.mm then (match a, b with | .stab _ _ _, .dev _ _ => true | _, _ => false)
+  else keyLt a.mm b.mm
+
+def Ref.queueLt : Ref → Ref → Bool
+  | .q a, .q b => a.queueLt b
+  | _, _ => false
+
+def Ref.qNameLt : Ref → Ref → Bool
+  | .q a, .q b => decide (a.verStr < b.verStr)
+  | _, _ => false
+
+/-- the `q/<version>` branches of a ref map, in the order of the map -/
+def qRaw (m : RefMap) : List Ref :=
   (m.filter (fun rc => match rc.1 with | .q _ => true | _ => false)).map (·.1)
+
+/-- the `q/<version>` branches, in the order `QueueCollection.delete()` removes them (`queues.delete()` before a
+    direct merge): the keys of `_queues`, i.e. the branches as `git branch -r --list origin/q/*` lists them (byte
+    order of the names), re-sorted by `compare_queues` (`_add_branch`; Python's sort is stable). For the one case
+    in which `compare_queues` is not a consistent order (a hotfix, a stabilization and a development queue of the
+    same major.minor) the exact binary-insertion order is modelled in `Model/QValidate.lean` (`pySort`); here
+    the plain stable sort is used. -/
+def qOnly (m : RefMap) : List Ref := stableSort Ref.queueLt (stableSort Ref.qNameLt (qRaw m))
 
 /-- `merge_queues` for one selected pull request: every destination it targets is fast-forwarded to its
     queue commit (a later selected pull request overwrites: in the end each destination is on the queue
